@@ -111,6 +111,12 @@ Definition update (cfg : config) (rs : list cls) (st : state) : state :=
        svp := set_all (fun c => Some (c, e)) rs (svp st);
        vptrs := vptrs st; ivptrs := ivptrs st; control := control st |}.
 
+(** the same state with arbitrary contents in the static v-table pointer
+    variables (used to state that a diagnosis does not depend on them) *)
+Definition with_svp (st : state) (f : loc -> option table) : state :=
+  {| epoch := epoch st; classes := classes st; svp := f; vptrs := vptrs st;
+     ivptrs := ivptrs st; control := control st |}.
+
 Definition updates (cfg : config) (hist : list (list cls)) (st : state) : state :=
   fold_left (fun s rs => update cfg rs s) hist st.
 
@@ -250,15 +256,31 @@ Definition static_ref (cfg : config) (st : state) (c : cls) : M vref :=
   _ <- tell (ASvp c) ;;
   ret (if indirect cfg then Indirect c else Direct (svp st c)).
 
+(** When the registration check of the exact-type shortcut and of final is made.
+    [CkAlways]: the code as it is (a90d4e0): always, under runtime_checks + type_hash.
+    [CkNever]: the code before a90d4e0.
+    [CkIfNull]: a tempting "optimisation": only when static_vptr<T> is null.  Wrong:
+    the static v-table pointer of a class is written by every update that compiles
+    the class and NEVER cleared, so a non-null content means "was registered at
+    some earlier update", not "is registered now" ([svp] vs [classes] / [control]). *)
+Inductive check_mode := CkAlways | CkNever | CkIfNull.
+
+Definition do_check (ck : check_mode) (st : state) (c : cls) : bool :=
+  match ck with
+  | CkAlways => true
+  | CkNever => false
+  | CkIfNull => match svp st c with None => true | Some _ => false end
+  end.
+
 (** *** template<class Other> virtual_ptr(Other&& other)   (core.hpp:253-303)
-    [checked_shortcut]: a90d4e0 (the hash_type_id call in the shortcut);
-    [lookup_dynamic_vptr]: 8d6866e (Policy::dynamic_vptr instead of
-    vptrs[index]; same reads for vptr_vector). *)
-Definition ctor_with (tm : traits_mode) (checked_shortcut : bool)
+    [ck]: a90d4e0 (the hash_type_id call in the shortcut);
+    8d6866e (Policy::dynamic_vptr instead of vptrs[index]) makes the same reads
+    for vptr_vector and is not distinguished here. *)
+Definition ctor_with (tm : traits_mode) (ck : check_mode)
            (cfg : config) (st : state) (a : arg) : M vptr :=
   let (static_id, dynamic_id) := ctor_ids tm a in
   if N.eqb dynamic_id static_id then
-    _ <- (if checked_shortcut && runtime_checks cfg && has_hash cfg
+    _ <- (if do_check ck st static_id && runtime_checks cfg && has_hash cfg
           then hash_type_id cfg st dynamic_id else ret dynamic_id) ;;
     r <- static_ref cfg st static_id ;;
     ret (boxed a r)
@@ -270,24 +292,24 @@ Definition ctor_with (tm : traits_mode) (checked_shortcut : bool)
     t <- dynamic_vptr cfg st dynamic_id ;;
     ret (boxed a (Direct (Some t))).
 
-Definition ctor : config -> state -> arg -> M vptr := ctor_with TConstRef true.
+Definition ctor : config -> state -> arg -> M vptr := ctor_with TConstRef CkAlways.
 
 (** *** static auto final(Other&& obj)   (core.hpp:332-377)
     the static v-table pointer of the static type is taken first; under
     runtime_checks the dynamic type is compared, then (type_hash) the class is
     passed through the checked hash. *)
-Definition final_with (tm : traits_mode) (checked_lookup : bool)
+Definition final_with (tm : traits_mode) (ck : check_mode)
            (cfg : config) (st : state) (a : arg) : M vptr :=
   let (static_id, dynamic_id) := final_ids tm a in
   r <- static_ref cfg st static_id ;;
   if runtime_checks cfg then
     if negb (N.eqb dynamic_id static_id) then fail (MethodTable dynamic_id)
     else
-      _ <- (if checked_lookup && has_hash cfg then hash_type_id cfg st static_id else ret static_id) ;;
+      _ <- (if do_check ck st static_id && has_hash cfg then hash_type_id cfg st static_id else ret static_id) ;;
       ret (boxed a r)
   else ret (boxed a r).
 
-Definition final_ : config -> state -> arg -> M vptr := final_with TConstRef true.
+Definition final_ : config -> state -> arg -> M vptr := final_with TConstRef CkAlways.
 
 (** make_virtual_shared<Class, Policy>() = virtual_shared_ptr<Class>::final(
     std::make_shared<Class>()): a fresh object of exactly that class, passed as
